@@ -76,7 +76,7 @@ def run_behaviour(fx, np, bid, h, variant=0):
         raised, err, cont_ok = False, '', True
         tgt = a.get('x') if act in ('New', 'Store', 'SetItem', 'SetItemFxp', 'Resize', 'Reset', 'SetCfg', 'SetCfgBad', 'Assign', 'Drop') else \
             a.get('z') if act == 'BinOpOut' else \
-            (a.get('y') if act in ('GetItem', 'CtorLike', 'Like', 'LikeShallow', 'CopyShallow', 'DeepCopy', 'RShiftKeep', 'LShiftKeep', 'Invert') else a.get('z'))
+            (a.get('y') if act in ('GetItem', 'CtorLike', 'NewLike', 'Like', 'LikeShallow', 'CopyShallow', 'DeepCopy', 'RShiftKeep', 'LShiftKeep', 'Invert') else a.get('z'))
         for r in rec.values():
             if r is not None:
                 r.ev = []
@@ -134,6 +134,17 @@ def run_behaviour(fx, np, bid, h, variant=0):
                 adopt(a['y'], src << a['n'])
             elif act == 'Invert':
                 adopt(a['y'], ~heap[a['x']])
+            elif act == 'NewLike':
+                tm = heap[a['t']]
+                vals = [val(k, common.fmt_dict(tm)) for k in a['ks']]
+                if a['via'] == 'like':
+                    adopt(a['y'], Fxp(vals, like=tm))
+                else:
+                    Fxp.template = tm                 # the class-level template mechanism
+                    try:
+                        adopt(a['y'], Fxp(vals))
+                    finally:
+                        Fxp.template = None
             elif act == 'CtorLike':
                 adopt(a['y'], Fxp(heap[a['x']], like=heap[a['t']]))
             elif act in ('Like', 'LikeShallow'):
